@@ -80,7 +80,7 @@ theorem Rel.foldUniques (now : Int) (newData : Val) (l : List Index) (c c' : Col
       if !ix.unique then pure c
       else do
         let kwargs ← valuesFor ix.keys newData
-        let skip := ix.sparse && kwargs.all (fun kv => match kv.2 with | .null => true | _ => false)
+        let skip := ix.sparse && kwargs.all isNullCond
         if skip then pure c
         else do
           let filter := match ix.partialFilter with
@@ -248,7 +248,7 @@ theorem loop_count (now : Int) (spec document nowV : Val) (multi : Bool) (T : Li
         rw [ha] at h
         dsimp only at h
         have hs0 : LInv now T rest (c.setDoc key new) := hset new
-        by_cases hc : (if c.isOD key then pyEqOrdered new v else pyEq new v) = true
+        by_cases hc : pyEq new v = true
         · rw [if_pos hc] at h
           -- the unique indexes are checked on the "unchanged" branch as well
           cases hu : ensureUniques now (c.setDoc key new) new with
